@@ -233,3 +233,39 @@ func (t Text) Token(g G, tok string) (G, error) {
 	}
 	return g, fmt.Errorf("%s emitted in state %s", tok, t.StateName(g.S))
 }
+
+// ---------------- dotted group path (the key-prefix scratch buffer of the text handler) ----------------
+
+const (
+	PBase = iota // as handed in: the open groups' prefix, possibly empty
+	PDot         // ends with a '.' separator
+	PSeg         // ends with a non-empty segment appended here
+)
+
+const TokKey = "KEY" // a non-empty key segment
+
+type Path struct{}
+
+func (Path) Name() string { return "dotted-path" }
+func (Path) StateName(s int) string {
+	return [...]string{"AsHandedIn", "AfterDot", "AfterSegment"}[s]
+}
+
+func (pt Path) Byte(g G, b byte) (G, error) {
+	if b != '.' {
+		return g, fmt.Errorf("constant byte %q appended to the key prefix (only '.' separators are expected)", b)
+	}
+	if g.S == PDot {
+		return g, fmt.Errorf("'.' appended to a key prefix that already ends with '.': an empty path segment (\"a..b\")")
+	}
+	g.S = PDot
+	return g, nil
+}
+
+func (pt Path) Token(g G, tok string) (G, error) {
+	if tok == TokKey {
+		g.S = PSeg
+		return g, nil
+	}
+	return g, fmt.Errorf("%s appended to the key prefix", tok)
+}
